@@ -7,7 +7,7 @@ from pyvc.loops import LoopSpec, loop_table
 from pyvc.ctx import Undecided
 from pyvc import source
 from .so_common import *    # noqa
-from .so_common import F
+from .so_common import F, _clen, _ctype
 
 LEADER, CAND, FOLL = 2, 1, 0
 
@@ -271,3 +271,129 @@ def _mut_votes_not_reset(fn):
                     body.remove(s)
                     cnt += 1
     return cnt
+
+
+# ------------------------------------------------------------------------------------------------ __getEntries against its summary
+def _batch_loop_spec(ctx, st):
+    """loop of __getEntries over enumerate(result): totalSize accumulates command lengths; it stops at the first entry at which the
+    running total reaches maxSizeBytes.  Invariant: i is the index of the last visited entry, and no earlier prefix reached the limit."""
+    def inv(I, fr, it):
+        k = it['k']
+        L = fr.locals
+        out = [('total-nonneg', L['totalSize'] >= 0)]
+        if is_sym(k):
+            out.append(('index-is-last-visited', Implies(k >= 1, Eq(L['i'], k - 1))))
+            out.append(('limit-not-reached-before', Implies(k >= 1, L['totalSize'] < L['maxSizeBytes'])))
+            out.append(('first-entry-counted', Implies(k >= 1, L['totalSize'] >= st['first_len'])))
+        return out
+    return LoopSpec('C11+C01:O11.2.batch-loop', inv)
+
+
+@unit(name='getEntries', relpath=MOD, qual=['SyncObj.__getEntries'], props=['C01', 'C11', 'C04'],
+      cases=[dict(count=c, maxsize=m) for c in (False, True) for m in (False, True)],
+      doc='O1.1/O11.2: __getEntries(from, count, maxSize) is log[from-first : from-first+count] (clamped), [] when from is None or below the '
+          'first index; with maxSize a non-empty prefix of it (at least one entry even if that alone exceeds the limit) that is a single '
+          'entry when the first command alone reaches the limit - the contract every caller uses (summary getEntries_summary)',
+      assumptions=['A-CMD'],
+      canaries=[('off-by-one', lambda mod: mutate_function(mod, 'SyncObj.__getEntries', _mut_diff_plus_one), ['O1.1.elements']),
+                ('drop-last', lambda mod: mutate_function(mod, 'SyncObj.__getEntries', _mut_return_i), ['O11.2.batch-non-empty'])])
+def get_entries(ctx, count, maxsize):
+    so = SO(ctx, 2)
+    so.assume_inv()
+    frm = FreshInt('fromIDx')
+    ctx.track('fromIDx', frm)
+    cnt = FreshInt('count') if count else None
+    mx = FreshInt('maxSizeBytes') if maxsize else None
+    if cnt is not None:
+        ctx.assume(cnt >= 0)
+        ctx.track('count', cnt)
+    if mx is not None:
+        ctx.track('maxSizeBytes', mx)
+    log = so.log()
+    first, n = to_z3(log.first), to_z3(log.n)
+    d = frm - first
+    st = {'first_len': _clen(log.cmdf(d))}
+    # command lengths are non-negative
+    q = z3.Int('q')
+    ctx.assume(z3.ForAll([q], _clen(log.cmdf(q)) >= 0), quant=True)
+    loops = {'SyncObj.__getEntries': loop_table(so.mod, 'SyncObj.__getEntries', {0: _batch_loop_spec(ctx, st)})}
+    I = make_interp(ctx, so, loops=loops)
+    kind, v = run_method(I, so, 'SyncObj.__getEntries', [frm, cnt, mx])
+    ctx.prove(kind == 'ok', 'C01+C11:O1.1.no-exception', info=getattr(v, 'typ', None))
+    if kind != 'ok':
+        return
+    res = as_slist(ctx.cell(v))
+    avail = z3.If(d >= n, 0, n - d)
+    if cnt is not None:
+        avail = z3.If(avail > cnt, cnt, avail)
+    full = z3.If(frm < first, 0, avail)
+    rn = to_z3(res.n)
+    if mx is None:
+        ctx.prove(rn == full, 'C01+C04:O1.1.length')
+    else:
+        ctx.prove(And(rn <= full, Implies(full > 0, rn >= 1)), 'C11+C01:O11.2.batch-non-empty')
+        ctx.prove(Implies(And(full > 0, _clen(log.cmdf(d)) >= mx), rn == 1), 'C11:O11.2.single-entry-when-first-reaches-limit')
+    if not is_sym(res.n) and res.n == 0:
+        return
+    j = FreshInt('j')
+    ctx.assume(And(j >= 0, j < rn))
+    e = res.get(j)
+    ctx.prove(And(e[1] == frm + j, e[2] == log.term_at(frm + j), Eq(e[0].id, log.cmd_at(frm + j)), frm + j <= log.last_idx(), frm >= first),
+              'C01+C04+C11:O1.1.elements')
+
+
+def _mut_diff_plus_one(fn):
+    cnt = 0
+    for n in ast.walk(fn):
+        if isinstance(n, ast.Assign) and isinstance(n.targets[0], ast.Name) and n.targets[0].id == 'diff':
+            n.value = ast.BinOp(left=n.value, op=ast.Add(), right=ast.Constant(value=1))
+            cnt += 1
+    return cnt
+
+
+def _mut_return_i(fn):
+    cnt = 0
+    for n in ast.walk(fn):
+        if isinstance(n, ast.Return) and isinstance(n.value, ast.Subscript) and isinstance(n.value.slice, ast.Slice) and isinstance(n.value.slice.upper, ast.BinOp):
+            n.value.slice.upper = n.value.slice.upper.left
+            cnt += 1
+    return cnt
+
+
+# ------------------------------------------------------------------------------------------------ connection notifications
+@unit(name='node-notifications', relpath=MOD, qual=['SyncObj.__onReadonlyNodeConnected', 'SyncObj.__onReadonlyNodeDisconnected',
+                                                    'SyncObj.__onNodeConnected', 'SyncObj.__onNodeDisconnected'], props=['C18', 'C04', 'C20'],
+      doc='O18.3: observers joining or leaving change only the observer set, the connected set and their own nextIndex/matchIndex entries '
+          '(I4 kept for a leader); voters, term, role, commit index and every voter\'s matchIndex are untouched; member (dis)connects '
+          'change only the connected set')
+def node_notifications(ctx):
+    so = SO(ctx, UNIVERSE())
+    so.assume_inv()
+    idx = FreshInt('node')
+    ctx.assume(And(idx >= 0, idx < so.U))
+    node = NodeV(idx)
+    # an observer is never a voter (observers carry counter ids, O14.1)
+    which = FreshInt('which')
+    for k, (meth, observer) in enumerate((('__onReadonlyNodeConnected', True), ('__onReadonlyNodeDisconnected', True),
+                                          ('__onNodeConnected', False), ('__onNodeDisconnected', False))):
+        if not ctx.decide(which == k, 'notification-%d' % k):
+            continue
+        if observer:
+            ctx.assume(And(*[Not(And(idx == i, so.cell('otherNodes').bits[i])) for i in range(so.U)]))
+        old = so.snapshot()
+        I = make_interp(ctx, so)
+        kind, v = run_method(I, so, 'SyncObj.' + meth, [node])
+        ctx.prove(kind == 'ok', 'C18:O18.3.no-exception', info=getattr(v, 'typ', None))
+        for n, b in field_unchanged(old, so, ['otherNodes', 'raftCurrentTerm', 'raftState', 'raftCommitIndex', 'votedForNodeId', 'raftLog',
+                                              'lastResponseTime', 'raftLastApplied']):
+            ctx.prove(b, 'C18+C04+C20:O18.3.frame.%s' % n)
+        m0, m1 = old.get('raftMatchIndex'), so.cell('raftMatchIndex')
+        v0 = old.get('otherNodes').bits
+        for i in range(so.U):
+            ctx.prove(Implies(v0[i], And(Iff(m1.pres[i], m0.pres[i]), Implies(m0.pres[i], Eq(m1.vals[i], m0.vals[i])))), 'C18+C04:O18.3.voter-matchIndex-untouched')
+        if not observer:
+            for n, b in field_unchanged(old, so, ['readonlyNodes', 'raftMatchIndex', 'raftNextIndex']):
+                ctx.prove(b, 'C18:O18.3.member-notification-touches-only-connected.%s' % n)
+        so.prove_inv('*:node-notifications')
+        return
+    raise_ = None
